@@ -43,7 +43,15 @@ JsonOK(r) ==
                   /\ (JS!JsonNative(r.a) /\ ~x.amb) => (r.back.k = "v" /\ Eq(r.back.v, r.a))     \* import(export(v)) == v
      ELSE r.out.k = "e"                                         \* "an error": which of the two variants is not pinned
 
-CaseOK(r) == CASE r.op = "ser" -> SerOK(r) [] r.op = "serjson" -> SerJsonOK(r) [] r.op = "json" -> JsonOK(r)
+\* the public Duration / Timestamp wrappers convert to the duration / timestamp they hold (0: alone, 1: in a
+\* sequence, 2: as a map value); a duration beyond 64-bit nanoseconds may also be refused
+WrapOK(r) ==
+  /\ NoPanic(r.out)
+  /\ LET exp == CASE r.wrap = 0 -> r.a [] r.wrap = 1 -> VList(<< r.a >>) [] r.wrap = 2 -> VMap(<< << VStr(<<100>>), r.a >> >>)
+         wide == r.a.t = "dur" /\ ~(LET NMx == INSTANCE Num64 IN NMx!InI64(r.a.n)) IN
+     \/ (r.out.k = "v" /\ Same(exp, r.out.v))
+     \/ (wide /\ r.out.k \in {"v", "e"})
+CaseOK(r) == CASE r.op = "ser" -> SerOK(r) [] r.op = "serjson" -> SerJsonOK(r) [] r.op = "json" -> JsonOK(r) [] r.op = "wrap" -> WrapOK(r)
 
 Init == l = 1 /\ bad = << >> /\ ndev = 0
 Next == /\ l <= Len(Rec) /\ l' = l + 1
